@@ -396,6 +396,8 @@ def _unit(prop, func, nxt='all', cfg='s1', shape=1, **kw):
 
 
 def units(prop, tier):
+    from spec import fsm        # the per-value enumeration of `_next` is exactly the reachable state set of the documented automaton
+    assert sorted(tuple(sorted(v)) for v in NEXTS.values()) == sorted(fsm.reach('CCM')), 'spec.fsm CCM table and contract enumeration differ'
     q = tier == 'quick'
     us = []
     shapes = (1,) if q else (0, 1, 2, 3)
